@@ -132,6 +132,35 @@ def rules(ck, P):
         ck.check(okm, "R-CE-TABLE", b["q"], "source response carries the reader's declared compression and the format's mime type (%s)" % (desc if st else ""),
                  "TileSource does not take compression/mime from the reader parameters", ir.loc(b))
 
+    gd = [b for b in P.bodies if b["q"].endswith("tile_source::TileSource::get_data")]
+    ns = [b for b in P.bodies if b["q"].endswith("response::SourceResponse::new_some")]
+    if ck.anchor("R-CE-TABLE", "TileSource::get_data + SourceResponse::new_some", gd + ns, 2):
+        b = gd[0]
+        look = [n for n in ir.walk_nodes(b["body"]) if n.get("k") == "mcall" and (n.get("q") or "").endswith("TilesReaderTrait::get_tile_data")]
+        calls = [n for n in ir.walk_nodes(b["body"]) if n.get("k") == "call" and (n.get("q") or "").endswith("SourceResponse::new_some")]
+        tile_calls = []
+        for c in calls:
+            # the response that carries the looked-up tile: its blob argument is bound from the lookup result
+            a0 = ir.strip(c["a"][0])
+            if a0.get("k") == "path" and a0.get("r") == "local" and a0.get("t", "").endswith("Blob") and not ir.contains(b["body"], lambda y: y.get("k") == "let" and y["pat"].get("hid") == a0["hid"] and
+                                                                                                                           ir.contains(y.get("init", {}), lambda z: (z.get("q") or "").endswith("build_tile_json"))):
+                tile_calls.append(c)
+        okt = len(tile_calls) == 1 and ir.place_str(tile_calls[0]["a"][1]) == "self.compression" and ir.place_str(tile_calls[0]["a"][2]) == "self.tile_mime" and len(look) == 1
+        ck.check(okt, "R-CE-TABLE", b["q"] + "|tile-response", "the stored tile is handed on with the source's declared compression and mime (self.compression, self.tile_mime)",
+                 "the tile response is labelled with %s, not with the source's declared compression/mime" % [(ir.place_str(c["a"][1]), ir.place_str(c["a"][2])) for c in tile_calls], ir.loc(b))
+        nb = ns[0]
+        st = [n for n in ir.walk_nodes(nb["body"]) if n.get("k") == "struct" and (n.get("q") or "").endswith("::SourceResponse")]
+        okn = False
+        if st:
+            ps = {x["name"]: x["hid"] for p in nb["params"] for x in ir.pat_binds(p)}
+
+            def root(e):
+                hs_ = {ir.local_hid(y) for y in ir.walk_nodes(e) if y.get("k") == "path" and y.get("r") == "local"}
+                return hs_
+            f = {x["name"]: root(x["e"]) for x in st[0]["fields"]}
+            okn = f.get("blob") == {ps.get("blob")} and f.get("compression") == {ps.get("compression")} and f.get("mime") == {ps.get("mime")}
+        ck.check(okn, "R-CE-TABLE", nb["q"], "SourceResponse::new_some stores blob, compression and mime from its own parameters", "SourceResponse::new_some crosses or drops a parameter", ir.loc(nb))
+
     # ---------------- R-STATUS
     hs = handlers(P)
     ck.anchor("R-STATUS", "axum handlers", hs, 2)
